@@ -428,3 +428,23 @@ func verifV1Merge(a, b JsonNode) string {
 }
 
 var _ = strings.Contains
+
+// verifV1SameMemberTwice: the diff has two hunks that go through the same keyed set member (the
+// same object as path element at the same position, with more path after it). In v1 the path
+// element is the whole old member, so the first hunk invalidates the address of the second
+// (a recorded finding).
+func verifV1SameMemberTwice(a, b JsonNode, metadata []Metadata) bool {
+	d := a.Diff(b, metadata...)
+	for i := range d {
+		for j := i + 1; j < len(d); j++ {
+			for k := 0; k+1 < len(d[i].Path) && k+1 < len(d[j].Path); k++ {
+				oi, ok1 := d[i].Path[k].(jsonObject)
+				oj, ok2 := d[j].Path[k].(jsonObject)
+				if ok1 && ok2 && len(oi) > 0 && oi.Json() == oj.Json() {
+					return true
+				}
+			}
+		}
+	}
+	return false
+}
